@@ -3,6 +3,10 @@
 import json
 TX_NOTE = "Trusted: SimNet (stream-level model of one QUIC connection, semantics in DESIGN.md 2.4) instead of quic-go; the app shell around the engines is a stub (sender closes with code 0 on return, receiver exits without closing); the go/ast yield generator; testing/synctest; one fake clock for both nodes."
 checks = {
+ "C09": dict(level="exploration", design="3/C09",
+   text="Tier T2: the real Prober.ProbeAndDial and real quic-go/TLS run over a simulated UDP network on the fake clock in which one listener is reachable through 1-4 candidate paths with their own up/down latencies (a third of the extra paths share the first path's round trip, split differently, so that handshakes finish together on the dialer), loss and blackholing; candidate lists carry duplicates, turn:-prefixed aliases and unroutable entries. Afterwards the real authenticateTransport (real TLS exporter) runs on both committed ends. Oracle: dialer and acceptor are on the same connection and authenticate; 5 s after ProbeAndDial returned every other connection the listener completed has been closed by the dialer; ProbeAndDial succeeds whenever a path is reachable. Two genuine defects are listed as known findings; a third was fixed.",
+   note="No scheduler is installed in this tier (quic-go is not instrumented): interleavings come from latencies and loss, and a replay reproduces the outcome, not a decision log; each reported violation is re-run in 5 fresh processes and its replay stability is printed. The accepting side is a transcription of runTransfer's acceptOnce (stub); STUN/TURN/NewProber do not run; the receiver's delayed dial-back is not modelled.",
+   technique="deterministic simulation of real QUIC over a simulated datagram network with per-path latency/loss faults on a fake clock (testing/synctest)"),
  "C10": dict(level="exploration", design="3/C10",
    text="The real thruserv main() (handlers, hub, session store, gorilla WebSocket, net/http) runs over simulated TCP; 1-3 sessions of scripted WebSocket clients join, reconnect with duplicate ids, stall, close or reset, and concurrently send addressed, broadcast, spoofed-from, foreign-session-id and malformed messages carrying unique tokens. The per-client receive logs are compared with a reference routing model with interval semantics: never a message from another session; from = the author's connect-time id; addressed messages only at the addressee, broadcasts never back at the author; no duplicates; per author-recipient order preserved; a message must be present at every recipient that had its peer_list before the send, kept reading to the end and has a unique id (author still connected); an unknown addressee is reported to the author and only to it.",
    note="net/http and gorilla are real but not instrumented; SimTCP replaces the kernel. must-deliver is deliberately narrow (see assumptions in the evidence): everything around joins, leaves and replaced connections is 'may'.",
